@@ -35,11 +35,11 @@ const VALUE_SHIFT_BITS: usize = 3;
 
 #[allow(unused)]
 /// The max integer value we can store in a value object
-const MAX_INT: isize = std::isize::MAX >> VALUE_SHIFT_BITS;
+pub(crate) const MAX_INT: isize = std::isize::MAX >> VALUE_SHIFT_BITS;
 
 #[allow(unused)]
 /// The minimum integer value we can store in a value object
-const MIN_INT: isize = std::isize::MIN >> VALUE_SHIFT_BITS;
+pub(crate) const MIN_INT: isize = std::isize::MIN >> VALUE_SHIFT_BITS;
 
 #[derive(Debug, PartialEq)]
 #[repr(u8)]
